@@ -1157,6 +1157,7 @@ Verdict propC08(Choices &c, Ctx &ctx) {
   A.cmn = "40,3,-1";
   B.cmn = "40,3,-1";
   A.plan.fullUtt = B.plan.fullUtt = false;
+  A.plan.recordPartials = B.plan.recordPartials = false; // the interleaved run records final results only
   if (A.plan.chunks.size() == 1 && A.audio.size() > 4000) A.plan.chunks = {{2000, false, false}, {A.audio.size() - 2000, false, false}};
   if (B.plan.chunks.size() == 1 && B.audio.size() > 4000) B.plan.chunks = {{3000, false, false}, {B.audio.size() - 3000, false, false}};
   std::ostringstream d;
